@@ -408,11 +408,18 @@ def _derives_from(defs, sieve, base):
     """sieve is base, or defined as base + [...] (superset by construction)."""
     if sieve == base:
         return True
+    def unwrap(x):
+        # tuple(X) / list(X) / frozenset(X) / set(X) of a table is that table in another container
+        while isinstance(x, ast.Call) and isinstance(x.func, ast.Name) and x.func.id in ("tuple", "list", "frozenset", "set") \
+                and len(x.args) == 1 and not x.keywords:
+            x = x.args[0]
+        return x
     e = defs.get(sieve)
     seen = 0
     while e is not None and seen < 5:
-        if isinstance(e, ast.BinOp) and isinstance(e.op, ast.Add):
-            l = e.left
+        e = unwrap(e)
+        if isinstance(e, ast.BinOp) and isinstance(e.op, (ast.Add, ast.BitOr)):
+            l = unwrap(e.left)
             if isinstance(l, ast.Name):
                 if l.id == base:
                     return True
@@ -971,6 +978,32 @@ def rule_curve_tables(ctx):
                   fi.loc(), what="getCurveByName knows %s" % nm)
 
 
+def rule_compress_direction(ctx):
+    """COMPRESS-DIR: compress_certificate advertises what the sender can DEcompress: every
+    CompressedCertificateExtension that is built lists `certificate_compression_receive` (followed through
+    the locals it is built in), never the send list - with different lists a peer would otherwise be
+    invited to compress with an algorithm we cannot read, or be told we support nothing."""
+    from .common import resolved_text
+    from ..query import calls_in, call_name
+    R = "C19.COMPRESS-DIR"
+    n = 0
+    for fi in ctx.index.all_functions():
+        if fi.module.name not in ("tlsconnection", "tlsrecordlayer"):
+            continue
+        for c in calls_in(fi.node):
+            if call_name(c) == "create" and isinstance(c.func, ast.Attribute) and isinstance(c.func.value, ast.Call) \
+                    and call_name(c.func.value) == "CompressedCertificateExtension" and c.args:
+                n += 1
+                txt = resolved_text(fi.node, c.args[0])
+                ok = "certificate_compression_receive" in txt and "certificate_compression_send" not in txt
+                ctx.check(R, ok, fi.qname, c,
+                          "the compress_certificate extension is built from `%s`; it must list the algorithms of "
+                          "certificate_compression_receive (what this side can decompress)" % txt[:120], fi.loc(c),
+                          what="%s advertises certificate_compression_receive" % fi.short)
+    if n < 3:
+        raise AnalysisError("%s: only %d compress_certificate constructions found (confirmed 4)" % (R, n))
+
+
 def rule_point_format(ctx):
     """POINT-FORMAT: the EC point format an endpoint uses (or accepts) when both hellos carry
     ec_point_formats comes from BOTH lists: every value a function derives from the two extensions'
@@ -1026,6 +1059,11 @@ def rule_point_format(ctx):
 RULES = [
     ("C19.POINT-FORMAT", "quick", rule_point_format),
     ("C19.CURVE-TABLES", "quick", rule_curve_tables),
+    ("C19.COMPRESS-DIR", "quick", rule_compress_direction),
+    # PSK + HelloRetryRequest is a permitted combination: the binder transcript must include the HRR
+    ("C19.BINDER", "quick", borrowed("c04", "rule_binder", "C04.BINDER", "C19.BINDER")),
+    # a cipher name enables its suites in every version that defines them (_filterSuites rows)
+    ("C19.POLICY", "quick", borrowed("c20", "rule_policy", "C20.POLICY", "C19.POLICY")),
     ("C19.GROUP-TABLES", "quick", rule_group_tables),
     ("C19.RANGES", "quick", rule_ranges),
     ("C19.SELECT", "quick", rule_select),
